@@ -1070,6 +1070,12 @@ func c14Check(in, obs string) string {
 			}
 		}
 	}
+	if f := strings.Split(in, "|"); (f[0] == "J" && strings.Contains(f[len(f)-1], ":A~") && f[2] == "X") ||
+		(f[0] == "F" && strings.Contains(f[len(f)-1], ":A~") && f[4] == "X") {
+		// the dangling exponent marker on an integer / enum field: protobuf-go reads the text (leniency of its
+		// integer path, not JSON and not a Tink rule); the line records that protojson refused it
+		return "a JSON text protojson reads by construction (dangling exponent marker) was refused: " + f[len(f)-1]
+	}
 	must := "undecodable input"
 	if r.decoded {
 		must = mustReject(r.ks)
